@@ -274,9 +274,9 @@ UNITS[mul] = 1.0
 UNITS[add] = 0.0
 UNITS[max] = -math.inf
 UNITS[min] = math.inf
-UNITS[and_] = False
+UNITS[and_] = True
 UNITS[xor] = False
-UNITS[or_] = True
+UNITS[or_] = False
 
 BINARY_INVERSES[mul] = truediv
 BINARY_INVERSES[add] = sub
